@@ -53,6 +53,17 @@ func init() {
 		mp := &multiPhase{}
 		mp.add(e2PhaseFor("C08", e2Oracles{snapshot: true}))
 		mp.add(streamPhaseFor("C08", 4, 40))
+		mp.add(racePlan(2, 20), func(w *W, idx int) {
+			withWatchdog(w, idx, fmt.Sprintf("E3:snapshot-wide:round%d", idx), 5*time.Minute, func() { snapshotWideRound(w, idx) })
+		})
+		// the same under the plain build: full speed, 48 committers contending for the snapshot recorder
+		mp.add(func(tier string) Plan {
+			pl := racePlan(2, 20)(tier)
+			pl.Race = false
+			return pl
+		}, func(w *W, idx int) {
+			withWatchdog(w, idx, fmt.Sprintf("E3:snapshot-wide:round%d", idx+100), 5*time.Minute, func() { snapshotWideRound(w, idx+100) })
+		})
 		register(&Property{ID: "C08", Level: "exploration",
 			Rule:   "one case = 48 schedules of a scenario (2-3 scripted writers: updates, merges on shared and own cells, deletes, inserts, two-block transactions, a rolled-back transaction) + one Snapshot, interleaved at every lock-free yield point of the commit and snapshot protocols (exhaustive in thorough for 2w1b and 2w1b-3txn = 9 240 and 72 072 interleavings; uniform seeded samples otherwise); the snapshot bytes are restored and every block must equal S_b[k], the fold of the first k commits in the order they reached the logger, for some k between the last commit acknowledged before Snapshot was called and the number applied before it returned; distinct = distinct schedule traces",
 			Assume: concAssume, Plan: mp.Plan, Run: mp.Run, MinEvents: map[string]int64{"schedules_executed": 1000, "snapshots_overlapping_commits": 200}})
